@@ -6,7 +6,7 @@ a MIR body is interpreted from that body, not modelled here -- with the exceptio
 import glob, os, re
 from z3 import (BitVecVal, BoolVal, And, Or, Not, If, Extract, SignExt, ZeroExt, BVAddNoOverflow, BVAddNoUnderflow, BVSubNoOverflow,
                 BVSubNoUnderflow, BVMulNoOverflow, BVMulNoUnderflow, is_true, is_false, simplify)
-from .vm import (BV, UNIT, Tup, Struct, Enum, SymEnum, Cell, Ref, Seq, Bits, Str, Closure, FnItem, Opaque, Iter, Unsupported, NativeFork, NativePanic,
+from .vm import (FP, fp_binop, fp_const, BV, UNIT, Tup, Struct, Enum, SymEnum, Cell, Ref, Seq, Bits, Str, Closure, FnItem, Opaque, Iter, Unsupported, NativeFork, NativePanic,
                  bool_, is_concrete_bool, mk_int, concrete_int, INT_TYPES)
 from vlib.common import REPO
 
@@ -234,6 +234,8 @@ def merge(cond, a, b):
     """ite over interpreter values of the same shape."""
     if isinstance(a, BV) and isinstance(b, BV):
         return BV(If(cond, a.v, b.v), a.signed)
+    if isinstance(a, FP) and isinstance(b, FP):
+        return FP(If(cond, a.v, b.v))
     if isinstance(a, Ref) or isinstance(b, Ref):
         raise Unsupported('merge of references')
     if isinstance(a, (bool,)) or hasattr(a, 'sort'):
@@ -1361,6 +1363,78 @@ def int_minmax(vm, m, callee, args):
     if callee.endswith('min') or '::min::' in callee:
         return BV(If(lt, a.v, b.v), a.signed)      # min(a, b): a if a <= b  (equal values are indistinguishable)
     return BV(If(lt, b.v, a.v), a.signed)
+
+
+# ------------------------------------------------------------------------------------------------ OrderedFloat<f64> (ordered-float 4.5, external crate)
+# F64 = OrderedFloat<f64> is Struct('OrderedFloat', [FP]).  Its operators are the crate's: arithmetic is IEEE on the
+# payload; == holds between two NaNs; >= is `self is NaN | self.0 >= other.0` and lt / le / gt are derived from it (lib.rs
+# lines 271-326 of the vendored source), i.e. a total order with NaN greatest and -0 = +0.
+def _of(vm, v):
+    v = dv(vm, v)
+    if isinstance(v, Struct) and v.name == 'OrderedFloat':
+        v = dv(vm, v.fields[0])
+    if not isinstance(v, FP):
+        raise Unsupported('not an f64: %r' % (v,))
+    return v.v
+
+
+def _wrap(x):
+    return Struct('OrderedFloat', [FP(x)])
+
+
+@native(r'^<(ordered_float::)?OrderedFloat<f64> as (std::convert::)?From<f64>>::from$|^<f64 as Into<(ordered_float::)?OrderedFloat<f64>>>::into$', 'OrderedFloat::from(f64)')
+def of_from(vm, m, callee, args):
+    return _wrap(_of(vm, args[0]))
+
+
+@native(r'^<&?(ordered_float::)?OrderedFloat<f64> as (std::ops::)?(Add|Sub|Mul|Div|Rem)(<.*>)?>::(add|sub|mul|div|rem)$', 'OrderedFloat arithmetic: IEEE 754 on the payload (round to nearest even; % is fmod, uninterpreted)')
+def of_arith(vm, m, callee, args):
+    op = callee.rsplit('::', 1)[1]
+    return _wrap(fp_binop(op.capitalize(), _of(vm, args[0]), _of(vm, args[1])).v)
+
+
+@native(r'^<&?(ordered_float::)?OrderedFloat<f64> as (std::ops::)?Neg>::neg$', 'OrderedFloat negation: sign flip')
+def of_neg(vm, m, callee, args):
+    from z3 import fpNeg
+    return _wrap(fpNeg(_of(vm, args[0])))
+
+
+def of_ge(x, y):
+    from z3 import fpIsNaN, fpGEQ
+    return Or(fpIsNaN(x), fpGEQ(x, y))
+
+
+@native(r'^<&?(ordered_float::)?OrderedFloat<f64> as (std::cmp::)?PartialEq>::(eq|ne)$', 'OrderedFloat ==: both NaN, or IEEE equal')
+def of_eq(vm, m, callee, args):
+    from z3 import fpIsNaN, fpEQ
+    x, y = _of(vm, args[0]), _of(vm, args[1])
+    e = If(fpIsNaN(x), fpIsNaN(y), fpEQ(x, y))
+    return e if callee.endswith('::eq') else Not(e)
+
+
+@native(r'^<&?(ordered_float::)?OrderedFloat<f64> as (std::cmp::)?PartialEq<f64>>::(eq|ne)$', 'OrderedFloat == f64: IEEE equality of the payload')
+def of_eq_f64(vm, m, callee, args):
+    from z3 import fpEQ
+    e = fpEQ(_of(vm, args[0]), _of(vm, args[1]))
+    return e if callee.endswith('::eq') else Not(e)
+
+
+@native(r'^<&?(ordered_float::)?OrderedFloat<f64> as (std::cmp::)?PartialOrd>::(lt|le|gt|ge)$', 'OrderedFloat ordering: ge = self is NaN | self >= other; lt = !ge, le = other.ge(self), gt = !other.ge(self)')
+def of_ord(vm, m, callee, args):
+    x, y = _of(vm, args[0]), _of(vm, args[1])
+    k = callee.rsplit('::', 1)[1]
+    return {'ge': of_ge(x, y), 'lt': Not(of_ge(x, y)), 'le': of_ge(y, x), 'gt': Not(of_ge(y, x))}[k]
+
+
+@native(r'^<(ordered_float::)?OrderedFloat<f64> as (num_traits::)?(identities::)?Zero>::is_zero$', 'OrderedFloat::is_zero: the payload is +0 or -0')
+def of_is_zero(vm, m, callee, args):
+    from z3 import fpIsZero
+    return fpIsZero(_of(vm, args[0]))
+
+
+@native(r'^<(ordered_float::)?OrderedFloat<f64> as (std::ops::)?Deref>::deref$', 'OrderedFloat deref: the payload')
+def of_deref(vm, m, callee, args):
+    return FP(_of(vm, args[0]))
 
 
 # ------------------------------------------------------------------------------------------------ strings (C20)
